@@ -1017,7 +1017,25 @@ func runC02(c *Ctx) {
 				if iff == nil || !(b.Dominates(cb)) {
 					continue
 				}
-				if derivesFrom(iff.Cond, func(v ssa.Value) bool { _, f, ok := fieldOf(v); return ok && f == "Injections" }) {
+				if derivesFrom(iff.Cond, func(v ssa.Value) bool {
+					if _, f, ok := fieldOf(v); ok && f == "Injections" {
+						return true
+					}
+					// … or a predicate of the package that looks at the routes' injections
+					if cl, ok := v.(*ssa.Call); ok {
+						if sf := staticFn(cl); sf != nil && sf.Pkg == sr.Pkg {
+							return reachesInstr(sf, func(x ssa.Instruction) bool {
+								if val, ok := x.(ssa.Value); ok {
+									if _, f, ok := fieldOf(val); ok && f == "Injections" {
+										return true
+									}
+								}
+								return false
+							}, 0, map[*ssa.Function]bool{})
+						}
+					}
+					return false
+				}) {
 					clearsOnInjection = true
 				}
 				if derivesFrom(iff.Cond, func(v ssa.Value) bool {
